@@ -251,7 +251,7 @@ def check(pid, tier, only_cfg=None, quiet=False):
             print(*a)
 
     p(f"[{pid}] tier={tier} configs={len(results)} obligations={n_obl} discharged={len(proved)} "
-      f"unknown={len(unknown)} violated={len(violated)} covers={cover_ok}/{len(covers)} "
+      f"unknown={len(unknown)} violated={len(new_violations)} known_finding_obligations={len(known_hits)} covers={cover_ok}/{len(covers)} "
       f"bounded={len(bounded)} solver={solver_time:.1f}s wall={time.time() - t0:.1f}s")
     seen_f = []
     for f_, r in known_hits:
